@@ -224,7 +224,11 @@ def gen_program(rng):
                          "lhs": aref(pick(rng, R1), [lit(1)]),
                          "rhs": binop("+", aref(pick(rng, R1), [ref("n")]),
                                       ref(pick(rng, RS)))})
-    return {"name": "sub", "body": body}
+    # INTENT(OUT) says nothing about the value on entry to a *region*:
+    # some arrays are declared so (the simulation gives them initial
+    # values in both runs, so nothing else changes)
+    intents = {a: "out" for a in R1 if rng.random() < 0.25}
+    return {"name": "sub", "body": body, "intents": intents}
 
 
 def touches_array(st):
@@ -302,7 +306,8 @@ def program_text(prog):
     lines = [f"subroutine {prog['name']}({', '.join(args)})",
              "  integer, intent(in) :: n"]
     for a in R1:
-        lines.append(f"  real, dimension(n), intent(inout) :: {a}")
+        intent = prog.get("intents", {}).get(a, "inout")
+        lines.append(f"  real, dimension(n), intent({intent}) :: {a}")
     for a in R2:
         lines.append(f"  real, dimension(n,n), intent(inout) :: {a}")
     for a in IARR:
